@@ -335,3 +335,13 @@ Theorem op_ipow :
     /\ forall j, j <> x -> j <> t -> j <> o -> s' j = s j.
 Proof. exact @ipow_spec. Qed.
 Print Assumptions op_ipow.
+
+(* the leaf positions are the leaves in traversal order, and a FRESH output element (what
+   x + y, a * x, x.copy(), ... allocate) satisfies the aliasing hypothesis of the nested theorems *)
+Theorem fresh_output_is_wf :
+  forall (sp : space) (x1 x2 out : elem),
+  conf sp x1 -> conf sp x2 -> conf sp out ->
+  NoDup (flat out) ->
+  (forall i, In i (flat out) -> ~ In i (flat x1) /\ ~ In i (flat x2)) ->
+  wf (quads sp x1 x2 out).
+Proof. exact wf_fresh_elem. Qed.
